@@ -39,6 +39,18 @@ theorem store_text0 {a : Rep} (hc : a.buf.length = a.cap) (b : Bytes) (h : b.len
   rw [← hc]
   simp only [List.length_append, List.length_drop, List.length_singleton]; omega
 
+/-! ### facts about the regenerated constants of `Gen/StrGen.lean` (the G obligations; restated in `AslProps/C03.lean`) -/
+
+theorem gen_space_pos : 0 < SPACE := by decide
+theorem gen_number_allocs : 11 ≤ Gen.Str.intAlloc ∧ 10 ≤ Gen.Str.uintAlloc ∧ 5 ≤ Gen.Str.boolAlloc := by decide
+theorem gen_long_allocs : Gen.Str.longInlineBelow ≤ 1000000000000000 ∧ Gen.Str.longInlineAbove ≤ 100000000000000 ∧
+    15 ≤ SPACE - 1 ∧ 20 ≤ Gen.Str.longHeapAlloc ∧ Gen.Str.ulongInlineBelow ≤ 1000000000000000 ∧
+    20 ≤ Gen.Str.ulongHeapAlloc := by decide
+theorem gen_printf : 2 ≤ Gen.Str.fmtTries ∧ 2 ≤ Gen.Str.fTries ∧ Gen.Str.fSpace ≤ Gen.Str.fStack ∧ 0 < Gen.Str.fSpace := by
+  decide
+theorem gen_intmin : myatoi Gen.Str.intMinText = -2147483648 ∧ (∀ c ∈ Gen.Str.intMinText, c ≠ 0) ∧
+    Gen.Str.intMinText.length ≤ 11 ∧ Gen.Str.intMinLen = Gen.Str.intMinText.length := by decide
+
 /-! ### constructors -/
 
 theorem alloc_spec (n : Nat) : (alloc n).buf.length = (alloc n).cap ∧ n < (alloc n).cap := by
@@ -47,10 +59,9 @@ theorem alloc_spec (n : Nat) : (alloc n).buf.length = (alloc n).cap ∧ n < (all
   · rw [if_pos h]
     exact ⟨by simp [Rep.cap, fresh_length], by simpa [Rep.cap] using h⟩
   · rw [if_neg h]
-    have h' : 16 ≤ n := by simpa [SPACE] using h
-    have hz : max (n + 1) 20 ≠ 0 := by omega
-    refine ⟨by simp [Rep.cap, hz, fresh_length], ?_⟩
-    simp only [Rep.cap, hz, if_false]; omega
+    have hz : max (n + 1) Gen.Str.allocMin ≠ 0 := by omega
+    refine ⟨by simp only [Rep.cap]; rw [if_neg hz]; exact fresh_length _, ?_⟩
+    simp only [Rep.cap]; rw [if_neg hz]; omega
 
 theorem init_spec (n : Nat) : (init n).buf.length = (init n).cap ∧ n < (init n).cap ∧ (init n).len = n := by
   have h := alloc_spec n
@@ -73,7 +84,9 @@ theorem ofCStr_spec (b : Bytes) (hb : NulFree b) : ∃ r, ofCStr b = some r ∧ 
   simp [init]
 
 theorem empty_models : Models Rep.empty [] := by
-  refine ⟨by simp [Rep.empty, Rep.cap, fresh_length, SPACE], rfl, NulFree.nil, fresh 15, rfl⟩
+  have := gen_space_pos
+  refine ⟨by simp only [Rep.empty, Rep.cap, List.length_cons, fresh_length, if_true]; omega, rfl, NulFree.nil,
+    fresh (SPACE - 1), rfl⟩
 
 theorem rd_text0 {r : Rep} {s : Bytes} (hm : Models r s) : rd r.buf 0 (r.len + 1) = some (s ++ [0]) := by
   obtain ⟨_, hlen, _, tail, hbuf⟩ := hm
@@ -371,8 +384,7 @@ theorem myitoa_nulfree (x : Int) : NulFree (myitoa x) := by
   · intro c hc; simp at hc; subst hc; decide
   · split
     · split
-      · show ∀ c ∈ ([45, 50, 49, 52, 55, 52, 56, 51, 54, 52, 56] : Bytes), c ≠ 0
-        decide
+      · exact gen_intmin.2.1
       · exact neg_nulfree _
     · exact digits_nulfree _
 
@@ -397,7 +409,7 @@ theorem myitoa_length (x : Int) (h1 : -2147483648 ≤ x) (h2 : x < 2147483648) :
   · simp
   · split
     · split
-      · simp
+      · exact gen_intmin.2.2.1
       · have := digitsRev_length 10 (-x).toNat (by omega)
         simp only [List.length_cons, List.length_reverse]; omega
     · have := digitsRev_length 10 x.toNat (by omega)
@@ -408,33 +420,41 @@ theorem ofText_spec (allocN : Nat) (txt : Bytes) (h : txt.length < (alloc allocN
   obtain ⟨b1, h1, hM⟩ := store_text0 (alloc_spec allocN).1 txt h hn
   exact ⟨_, by unfold ofText; simp only [h1, Option.map_some], hM⟩
 
-theorem cap_alloc_small (n : Nat) (h : n < 16) : (alloc n).cap = 16 := by
-  simp [alloc, SPACE, h, Rep.cap]
-
-theorem cap_alloc_21 : (alloc 21).cap = 22 := by decide
-
 theorem ofInt_spec (x : Int) (h1 : -2147483648 ≤ x) (h2 : x < 2147483648) :
     ∃ r, ofInt x = some r ∧ Models r (myitoa x) := by
   apply ofText_spec
-  · rw [cap_alloc_small 11 (by omega)]
-    have := myitoa_length x h1 h2; omega
+  · have := (alloc_spec Gen.Str.intAlloc).2
+    have := myitoa_length x h1 h2
+    have := gen_number_allocs.1
+    omega
   · exact myitoa_nulfree x
 
 theorem ofUInt_spec (x : Nat) (h : x < 4294967296) : ∃ r, ofUInt x = some r ∧ Models r (utoa x) := by
   apply ofText_spec
-  · rw [cap_alloc_small 10 (by omega)]
-    have := utoa_length 10 x (by omega) (by omega); omega
+  · have := (alloc_spec Gen.Str.uintAlloc).2
+    have := utoa_length 10 x (by omega) (by omega)
+    have := gen_number_allocs.2.1
+    omega
   · exact utoa_nulfree x
 
 theorem ofULong_spec (x : Nat) (h : x < 18446744073709551616) : ∃ r, ofULong x = some r ∧ Models r (utoa x) := by
   unfold ofULong
+  obtain ⟨_, _, g3, _, g5, g6⟩ := gen_long_allocs
   apply ofText_spec
   · split
-    · rw [cap_alloc_small 15 (by omega)]
+    · have := (alloc_spec (SPACE - 1)).2
       have := utoa_length 15 x (by omega) (by omega); omega
-    · rw [cap_alloc_21]
+    · have := (alloc_spec Gen.Str.ulongHeapAlloc).2
       have := utoa_length 20 x (by omega) (by omega); omega
   · exact utoa_nulfree x
+
+theorem ofBool_spec (x : Bool) : ∃ r, ofBool x = some r ∧
+    Models r (if x then [116, 114, 117, 101] else [102, 97, 108, 115, 101]) := by
+  apply ofText_spec
+  · have := (alloc_spec Gen.Str.boolAlloc).2
+    have := gen_number_allocs.2.2
+    cases x <;> simp <;> omega
+  · cases x <;> (intro c hc; simp at hc; rcases hc with rfl | rfl | rfl | rfl | rfl <;> decide)
 
 theorem myltoa_length (x : Int) (h1 : -9223372036854775808 ≤ x) (h2 : x < 9223372036854775808) :
     (myltoa x).length ≤ 20 ∧ (x < 1000000000000000 ∧ x > -100000000000000 → (myltoa x).length ≤ 15) := by
@@ -465,12 +485,13 @@ theorem ofLong_spec (x : Int) (h1 : -9223372036854775808 ≤ x) (h2 : x < 922337
     ∃ r, ofLong x = some r ∧ Models r (myltoa x) := by
   unfold ofLong
   obtain ⟨hl1, hl2⟩ := myltoa_length x h1 h2
+  obtain ⟨g1, g2, g3, g4, _, _⟩ := gen_long_allocs
   apply ofText_spec
   · split
     · rename_i hr
-      rw [cap_alloc_small 15 (by omega)]
-      have := hl2 hr; omega
-    · rw [cap_alloc_21]; omega
+      have := (alloc_spec (SPACE - 1)).2
+      have := hl2 ⟨by omega, by omega⟩; omega
+    · have := (alloc_spec Gen.Str.longHeapAlloc).2; omega
   · exact myltoa_nulfree x
 
 end AslProofs.Str
